@@ -1,7 +1,8 @@
 /* C18 executor: publications file — structure, signed range, trust, lookups.
  *   pf <file-hex> <anchors> <file-constraints> <ctx-constraints>
  *       anchors: ca | other | none      (PEM files in $VERIF_PKI_DIR: ca.pem, other.pem)
- *       constraints: "-" (not set), "e" (set to the empty array), or oid:hexvalue[,oid:hexvalue…]
+ *       constraints: "-" (not set), "e" (set to the empty array), oid:hexvalue[,oid:hexvalue…], or for the file "x:<constraints>": set,
+ *       then taken back by setting NULL
  *     => P<status>                                   parse refused
  *        P0 signed=<n> V<status> W<status>           KSI_PublicationsFile_verify / KSI_verifyPublicationsFile
  *   pq <file-hex> <query>…
@@ -20,6 +21,7 @@ static KSI_CertConstraint *parse_cons(char *spec, int *isnull) {
 	KSI_CertConstraint *arr; int n = 0, i; char *p;
 	*isnull = 0;
 	if (!strcmp(spec, "-")) { *isnull = 1; return NULL; }
+	if (!strncmp(spec, "x:", 2)) { KSI_CertConstraint *a = parse_cons(spec + 2, isnull); *isnull = 2; return a; }   /* set, then cleared with NULL */
 	arr = calloc(64, sizeof(*arr));
 	if (!strcmp(spec, "e")) return arr;
 	for (p = strtok(spec, ","); p != NULL && n < 62; p = strtok(NULL, ",")) {
@@ -85,6 +87,7 @@ static void do_line(char *work, const char *orig) {
 			KSI_PublicationsFile_getSignedDataLength(pf, &sl);
 			if (!cnull) KSI_CTX_setDefaultPubFileCertConstraints(ctx, cc);
 			if (!fnull) KSI_PublicationsFile_setCertConstraints(pf, fc);
+			if (fnull == 2) { KSI_PublicationsFile_setCertConstraints(pf, fc); KSI_PublicationsFile_setCertConstraints(pf, NULL); }   /* what was set on the file is taken back */
 			v = KSI_PublicationsFile_verify(pf, ctx);
 			v2 = KSI_verifyPublicationsFile(ctx, pf);
 			printf("P0 signed=%zu V%d W%d", sl, v, v2);
